@@ -77,11 +77,18 @@ def main():
         if a.name:
             d = os.path.join(ROOT, "seeded", a.name)
             os.makedirs(d, exist_ok=True)
-            shutil.copy(a.patch, os.path.join(d, "patch.diff"))
-            shutil.copy(a.demo, os.path.join(d, "demo.py"))
+            if os.path.abspath(a.patch) != os.path.join(d, "patch.diff"):
+                shutil.copy(a.patch, os.path.join(d, "patch.diff"))
+            if os.path.abspath(a.demo) != os.path.join(d, "demo.py"):
+                shutil.copy(a.demo, os.path.join(d, "demo.py"))
             meta = {}
+            old = os.path.join(d, "meta.json")
+            if os.path.exists(old):
+                meta = json.load(open(old))            # refresh: keep the author's description and the recorded test-suite result
             if a.meta and os.path.exists(a.meta):
-                meta = json.load(open(a.meta))
+                meta.update(json.load(open(a.meta)))
+            if a.skip_tests and meta.get("tests_with_patch"):
+                out["tests"] = meta["tests_with_patch"]
             meta.update({"property": a.pid, "confirmed_by": "tools/seedcheck.py: scratch worktree of /repo HEAD, demo unpatched/patched, pinned test-suite on the patched tree, ./check with FORSYS_REPO=<patched tree> (quick, seeds 0 and 1)",
                          "demo_unpatched_exit": rc0, "demo_patched_exit": rc1, "tests_with_patch": out.get("tests"),
                          "caught_by": out["caught_by"], "checks": caught})
